@@ -240,6 +240,10 @@ def showMacroErr : RsslVerif.Model.Macro.Err → String
   | .concatMissingRightToken => "err ConcatMissingRightToken"
   | .concatFailed => "err ConcatFailed"
   | .failedToFindFile _ => "err FailedToFindFile"
+  -- (C12, wave 5: directive lines rejected by `preprocess_command`; C11's own model has its own variants for them)
+  | .unknownPragma => "err UnknownPragma"
+  | .unknownCommand => "err UnknownCommand"
+  | .invalidInclude => "err InvalidInclude"
   | .panic site => "unsupported: model reports a panic at " ++ site
   | .hang => "unsupported: model reports a hang"
   | .guard w => "unsupported: termination guard " ++ w
